@@ -347,6 +347,71 @@ let rec handle (pl : string) : string =
       end) toks;
     Printf.sprintf "t=%s;h=%08x;sole=%d;spec=%s;class=anm:%s" (Buffer.contents trace) !h !sole_ok
       (bool01 (!sole_ok = !sole)) (if ltp = "1" then "ltp" else "htp")
+  | ["e1c"; rev2; pool; script] ->
+    let rev2b = rev2 = "1" in
+    let pool = Array.of_list (List.map bytes_of_hex (String.split_on_char '/' pool)) in
+    let toks = String.split_on_char ',' script in
+    let h = ref 2166136261 in
+    let fnv_string s = String.iter (fun c -> h := ((!h lxor Char.code c) * 16777619) land 0xffffffff) s in
+    let cids = Array.init 3 (fun k -> List.init 16 (fun z -> n_of_int (16 * (k + 1) + z))) in
+    let name = List.map (fun c -> n_of_int (Char.code c)) ['c';'i';'d'] in
+    let universe = n_of_int 7 in
+    let txs = [| None; None; None |] in
+    let st = ref { r_srcs = []; r_active = N0; r_hbuf = None } in
+    let now = ref 0 in
+    let last = [| -1; -1; -1 |] and term = [| false; false; false |] and prio = [| 100; 100; 100 |] in
+    let lastf = [| []; []; [] |] in
+    let trace = Buffer.create 64 in
+    let sole = ref 0 and sole_ok = ref 0 and bad = ref "" in
+    let deliver p =
+      (match e131_packet p universe true with
+       | PkGot pk -> let (st', ran) = e131_track !st (n_of_int !now) pk in st := st'; ran
+       | PkIgnore -> false
+       | PkOob -> bad := "OOB"; false
+       | PkUnmod -> bad := "UNMODELLED"; false) in
+    List.iter (fun tk ->
+      if String.length tk >= 2 then begin
+        let rest n = String.sub tk n (String.length tk - n) in
+        match tk.[0] with
+        | 'w' -> now := !now + ios (rest 1)
+        | 'p' -> let w = Char.code tk.[1] - 97 in if w >= 0 && w < 3 then prio.(w) <- ios (rest 2)
+        | 't' ->
+          let w = Char.code tk.[1] - 97 in
+          if w >= 0 && w < 3 && not rev2b then begin
+            let (pk, t') = tx_terminate cids.(w) name (n_of_int prio.(w)) universe txs.(w) in
+            txs.(w) <- t';
+            List.iter (fun p -> ignore (deliver p)) pk;
+            term.(w) <- true;
+            fnv_string ("T:" ^ buf_s (!st).r_hbuf);
+            Buffer.add_char trace 'T' end
+        | c ->
+          let who = Char.code c - 97 in
+          let k = ios (rest 1) in
+          if who >= 0 && who <= 2 && k < Array.length pool then begin
+            let f = pool.(k) in
+            let (p, t') = tx_send_r rev2b cids.(who) name (n_of_int prio.(who)) universe txs.(who) f in
+            txs.(who) <- t';
+            match p with
+            | None -> Buffer.add_char trace '-'
+            | Some p ->
+              let ran = deliver p in
+              let alone = ref true in
+              for z = 0 to 2 do
+                if z <> who && last.(z) >= 0 && not term.(z) && not (last.(z) + 2500 < !now) then begin
+                  let zero = List.length lastf.(z) <= List.length f && prio.(z) = prio.(who)
+                             && List.for_all (fun x -> x = N0) lastf.(z) in
+                  if not zero then alone := false end
+              done;
+              last.(who) <- !now; term.(who) <- false; lastf.(who) <- f;
+              let exact = ran && (!st).r_hbuf = Some f in
+              if !alone then begin incr sole; if exact then incr sole_ok end;
+              fnv_string ((if ran then "1:" else "0:") ^ buf_s (!st).r_hbuf);
+              Buffer.add_char trace (if exact then (if !alone then '1' else 'e') else (if !alone then '0' else 'm'))
+          end
+      end) toks;
+    if !bad <> "" then "t=" ^ !bad ^ ";class=e1c:" ^ !bad
+    else Printf.sprintf "t=%s;h=%08x;sole=%d;spec=%s;class=e1c:rev%s" (Buffer.contents trace) !h !sole_ok
+           (bool01 (!sole_ok = !sole)) (if rev2b then "2" else "3")
   | ["enc"; cap; fr] ->
     let f = bytes_of_hex fr in
     let cls = frame_class (List.map int_of_n f) in
